@@ -275,7 +275,7 @@ CHECKS = {
              "sign_transaction's contract) is >= amount + fee; there is exactly one more output paying T - amount - fee "
              "to the change key when that is non-zero and none when it is zero; every input references an output that is "
              "unspent at the head, pays a key of this wallet and is not in the wallet's record of used outputs; afterwards "
-             "the record is exactly the old record plus these inputs; on EVERY exceptional outcome (insufficient funds, "
+             "the record contains the old record and these inputs; on EVERY exceptional outcome (insufficient funds, "
              "signing errors) the record is unchanged and nothing else of the wallet is written (frame). sign_transaction "
              "keeps every reference and the outputs, signs each input over the signable form with the private key the wallet "
              "holds for the spent output's key, and preserves the spent total. Bounded (not proof): sequences of spends and "
